@@ -178,6 +178,40 @@ pub fn coins() -> Tree {
     coin(guess("heads", true), coin(guess("tails", false), skew))
 }
 
+/// liar's dice with one die of two faces each (the repository's benchmark game, scaled down): chance deals the
+/// four pairs of dice, the players bid (quantity, face) in increasing order or call "liar"; a player knows the own
+/// die and the bids so far
+pub fn liars() -> Tree {
+    const BIDS: [(u8, u8); 4] = [(1, 1), (1, 2), (2, 1), (2, 2)];
+    fn play(dice: [u8; 2], hist: &mut Vec<usize>) -> Tree {
+        let mover = hist.len() % 2; // 0 = player one
+        let mut kids = Vec::new();
+        if let Some(&last) = hist.last() {
+            let (q, f) = BIDS[last];
+            let count = dice.iter().filter(|d| **d == f).count() as u8;
+            let bidder = (hist.len() - 1) % 2;
+            let bidder_wins = count >= q;
+            let one_wins = (bidder == 0) == bidder_wins;
+            kids.push(PKid { a: "liar".into(), t: Tree::T { pay: Num::I(if one_wins { 1 } else { -1 }) } });
+        }
+        let from = hist.last().map_or(0, |l| l + 1);
+        for b in from..BIDS.len() {
+            hist.push(b);
+            kids.push(PKid { a: format!("b{}{}", BIDS[b].0, BIDS[b].1), t: play(dice, hist) });
+            hist.pop();
+        }
+        let h: String = hist.iter().map(|b| b.to_string()).collect();
+        Tree::P { pl: mover as u8 + 1, info: format!("d{}h{}", dice[mover], h), kids }
+    }
+    let mut kids = Vec::new();
+    for a in 1..=2u8 {
+        for b in 1..=2u8 {
+            kids.push(CKid { w: Num::I(1), t: play([a, b], &mut Vec::new()) });
+        }
+    }
+    Tree::C { ci: "none".into(), kids }
+}
+
 pub fn all() -> Vec<(String, Tree)> {
     let mut v = vec![
         ("pennies".to_string(), pennies()),
@@ -188,6 +222,7 @@ pub fn all() -> Vec<(String, Tree)> {
         ("flat".to_string(), flat()),
     ];
     v.push(("coins".to_string(), coins()));
+    v.push(("liars".to_string(), liars()));
     v.push(("rps".to_string(), rps([1, 1, 1])));
     v.push(("rps-weighted".to_string(), rps([1, 2, 3])));
     for d in [2, 4, 6, 8] {
